@@ -1,4 +1,706 @@
 package main
 
-func cmdCheck(args []string) int  { return 2 }
-func cmdReplay(args []string) int { return 2 }
+import (
+	"crypto/sha1"
+	"encoding/hex"
+	"encoding/json"
+	"flag"
+	"fmt"
+	"go/ast"
+	"go/parser"
+	"go/token"
+	"math/rand"
+	"os"
+	"path/filepath"
+	"sort"
+	"strconv"
+	"strings"
+	"sync"
+	"time"
+
+	"symgo/exec"
+)
+
+type ParamRange struct {
+	Name   string
+	Lo, Hi int
+}
+
+type HarnessSpec struct {
+	Pkg      string
+	Name     string
+	Quick    []ParamRange
+	Thorough []ParamRange
+	Filter   func(p map[string]int) bool
+	Reach    []string // vReach tags that must be hit by at least one job (vacuity guard)
+	Desc     string
+	MaxVisits int
+}
+
+type ProbeSpec struct {
+	Pkg      string
+	Name     string
+	NArgs    int
+	Alphabet string // bytes used for generated arguments
+	MaxLen   int
+	N        int      // number of generated cases
+	Extra    []string // hand-picked strings always included
+	TestDir  string   // repo-relative dir whose *_test.go string literals are added
+}
+
+type Prop struct {
+	ID         string
+	Title      string
+	Harnesses  []HarnessSpec
+	Probes     []ProbeSpec
+	Functions  []string
+	Bounds     map[string]string // tier -> text
+	Outside    []string
+	Intrinsics []string
+	Assumes    []string
+	Cuts       []string
+}
+
+type KnownFinding struct {
+	Property string `json:"property"`
+	ID       string `json:"id"`
+	Status   string `json:"status"` // "open" or "fixed"
+	What     string `json:"what"`
+	Witness  string `json:"witness,omitempty"`
+	Commit   string `json:"commit,omitempty"`
+}
+
+type replayFile struct {
+	Property string            `json:"property"`
+	Harness  string            `json:"harness"`
+	Pkg      string            `json:"pkg"`
+	Params   map[string]int    `json:"params"`
+	Inputs   map[string]string `json:"inputs"`
+	Kind     string            `json:"kind"`
+	Msg      string            `json:"msg"`
+	Pos      string            `json:"pos"`
+	Known    string            `json:"known,omitempty"`
+	Reach    string            `json:"reach,omitempty"`
+}
+
+func enumParams(rs []ParamRange, filter func(map[string]int) bool) []map[string]int {
+	out := []map[string]int{{}}
+	for _, r := range rs {
+		var next []map[string]int
+		for _, m := range out {
+			for v := r.Lo; v <= r.Hi; v++ {
+				n := map[string]int{}
+				for k, x := range m {
+					n[k] = x
+				}
+				n[r.Name] = v
+				next = append(next, n)
+			}
+		}
+		out = next
+	}
+	if filter == nil {
+		return out
+	}
+	var f []map[string]int
+	for _, m := range out {
+		if filter(m) {
+			f = append(f, m)
+		}
+	}
+	return f
+}
+
+func paramSize(m map[string]int) int {
+	t := 0
+	for _, v := range m {
+		t += v
+	}
+	return t
+}
+
+func loadKnown(verif string) ([]KnownFinding, error) {
+	data, err := os.ReadFile(filepath.Join(verif, "known_findings.json"))
+	if err != nil {
+		if os.IsNotExist(err) {
+			return nil, nil
+		}
+		return nil, err
+	}
+	var k []KnownFinding
+	if err := json.Unmarshal(data, &k); err != nil {
+		return nil, err
+	}
+	return k, nil
+}
+
+func hexInputs(in map[string][]byte) map[string]string {
+	out := map[string]string{}
+	for k, v := range in {
+		out[k] = hex.EncodeToString(v)
+	}
+	return out
+}
+
+func cmdCheck(args []string) int {
+	fs := flag.NewFlagSet("check", flag.ExitOnError)
+	repo := fs.String("repo", "/repo", "")
+	verif := fs.String("verif", "/verif", "")
+	propID := fs.String("prop", "", "")
+	tier := fs.String("tier", os.Getenv("VERIF_TIER"), "")
+	workers := fs.Int("workers", 16, "")
+	only := fs.String("only", "", "run only harnesses whose name contains this")
+	fs.Parse(args)
+	if *tier == "" {
+		*tier = "quick"
+	}
+	seed := int64(1)
+	if s := os.Getenv("VERIF_SEED"); s != "" {
+		if v, err := strconv.ParseInt(s, 10, 64); err == nil {
+			seed = v
+		}
+	}
+	prop, ok := props[*propID]
+	if !ok {
+		fmt.Printf("INCONCLUSIVE property=%s reason=unknown property\n", *propID)
+		return 2
+	}
+	t0 := time.Now()
+	c := &checker{prop: prop, tier: *tier, seed: seed, repo: *repo, verif: *verif, workers: *workers, only: *only}
+	code := c.run()
+	c.writeEvidence(time.Since(t0), code)
+	return code
+}
+
+type checker struct {
+	prop    *Prop
+	tier    string
+	seed    int64
+	repo    string
+	verif   string
+	workers int
+	only    string
+
+	env     *env
+	world   *exec.World
+	results []*exec.JobResult
+	lines   []string
+	reason  []string // reasons for inconclusive
+	violations int
+	knownHits  map[string]bool
+	probePairs int
+	replayed   int
+	samples    []interface{}
+	loadTime   time.Duration
+	jobsN      int
+	reachOK    map[string]bool
+}
+
+func (c *checker) say(format string, a ...interface{}) {
+	l := fmt.Sprintf(format, a...)
+	c.lines = append(c.lines, l)
+	fmt.Println(l)
+}
+
+func (c *checker) inconclusive(format string, a ...interface{}) {
+	r := fmt.Sprintf(format, a...)
+	c.reason = append(c.reason, r)
+	fmt.Printf("INCONCLUSIVE property=%s reason=%s\n", c.prop.ID, r)
+}
+
+func (c *checker) run() int {
+	env, err := newEnv(c.repo, c.verif)
+	if err != nil {
+		c.inconclusive("environment: %v", err)
+		return 2
+	}
+	c.env = env
+	defer env.cleanup()
+	tl := time.Now()
+	w, err := env.load()
+	c.loadTime = time.Since(tl)
+	if err != nil {
+		c.inconclusive("cannot load/encode the current tree: %v", firstLine(err.Error()))
+		return 2
+	}
+	c.world = w
+	known, err := loadKnown(c.verif)
+	if err != nil {
+		c.inconclusive("known_findings.json: %v", err)
+		return 2
+	}
+
+	// ---- jobs ----
+	type job struct {
+		spec exec.JobSpec
+		h    *HarnessSpec
+	}
+	var jobs []job
+	for i := range c.prop.Harnesses {
+		h := &c.prop.Harnesses[i]
+		if c.only != "" && !strings.Contains(h.Name, c.only) {
+			continue
+		}
+		rs := h.Quick
+		if c.tier == "thorough" && h.Thorough != nil {
+			rs = h.Thorough
+		}
+		for _, p := range enumParams(rs, h.Filter) {
+			jobs = append(jobs, job{exec.JobSpec{Pkg: pkgPath(h.Pkg), Harness: h.Name, Params: p}, h})
+		}
+	}
+	// biggest first for better packing
+	sort.SliceStable(jobs, func(i, j int) bool { return paramSize(jobs[i].spec.Params) > paramSize(jobs[j].spec.Params) })
+	c.jobsN = len(jobs)
+	results := make([]*exec.JobResult, len(jobs))
+	var wg sync.WaitGroup
+	ch := make(chan int)
+	for k := 0; k < c.workers; k++ {
+		wg.Add(1)
+		go func() {
+			defer wg.Done()
+			for i := range ch {
+				results[i] = w.RunJob(jobs[i].spec, exec.JobOpts{Solver: "z3", TimeoutMS: 60000, MaxVisits: jobs[i].h.MaxVisits})
+			}
+		}()
+	}
+	for i := range jobs {
+		ch <- i
+	}
+	close(ch)
+	wg.Wait()
+	c.results = results
+
+	// ---- collect ----
+	type pending struct {
+		rf   replayFile
+		path string
+	}
+	var pend []pending
+	reached := map[string]map[string]*replayFile{} // harness -> tag -> witness
+	for i, r := range results {
+		h := jobs[i].h
+		if r.Err != "" {
+			c.inconclusive("harness %s %v: %s", r.Spec.Harness, r.Spec.Params, firstLine(r.Err))
+		}
+		for _, e := range r.SolverErrs {
+			c.inconclusive("solver error in %s %v: %s", r.Spec.Harness, r.Spec.Params, e)
+		}
+		if r.Undecided > 0 {
+			c.inconclusive("harness %s %v: %d solver queries undecided (timeout/unknown)", r.Spec.Harness, r.Spec.Params, r.Undecided)
+		}
+		for _, f := range r.Findings {
+			if f.Unknown {
+				c.inconclusive("harness %s %v: obligation %q undecided", r.Spec.Harness, r.Spec.Params, f.Msg)
+				continue
+			}
+			rf := replayFile{Property: c.prop.ID, Harness: r.Spec.Harness, Pkg: h.Pkg, Params: r.Spec.Params, Inputs: hexInputs(f.Inputs), Kind: f.Kind, Msg: f.Msg, Pos: f.Pos, Known: f.Known}
+			pend = append(pend, pending{rf: rf})
+		}
+		for tag, in := range r.Reached {
+			if reached[r.Spec.Harness] == nil {
+				reached[r.Spec.Harness] = map[string]*replayFile{}
+			}
+			old := reached[r.Spec.Harness][tag]
+			if old == nil || paramSize(r.Spec.Params) > paramSize(old.Params) {
+				reached[r.Spec.Harness][tag] = &replayFile{Property: c.prop.ID, Harness: r.Spec.Harness, Pkg: h.Pkg, Params: r.Spec.Params, Inputs: hexInputs(in), Reach: tag}
+			}
+		}
+	}
+	// vacuity: required tags
+	c.reachOK = map[string]bool{}
+	for i := range c.prop.Harnesses {
+		h := &c.prop.Harnesses[i]
+		if c.only != "" && !strings.Contains(h.Name, c.only) {
+			continue
+		}
+		for _, tag := range h.Reach {
+			if reached[h.Name] == nil || reached[h.Name][tag] == nil {
+				c.inconclusive("vacuity: harness %s never reaches %q", h.Name, tag)
+				continue
+			}
+			pend = append(pend, pending{rf: *reached[h.Name][tag]})
+		}
+	}
+	// limit the number of native replays per (harness, msg, known)
+	seen := map[string]int{}
+	var keep []pending
+	for _, p := range pend {
+		k := p.rf.Harness + "|" + p.rf.Msg + "|" + p.rf.Known + "|" + p.rf.Reach
+		seen[k]++
+		if seen[k] > 2 {
+			continue
+		}
+		keep = append(keep, p)
+	}
+	pend = keep
+
+	// ---- native side: probes + replays in one go test run per package ----
+	replayDir := filepath.Join(c.verif, "replays")
+	os.MkdirAll(replayDir, 0o755)
+	byPkg := map[string][]int{}
+	for i := range pend {
+		data, _ := json.MarshalIndent(pend[i].rf, "", " ")
+		sum := sha1.Sum(data)
+		name := fmt.Sprintf("%s-%s.json", c.prop.ID, hex.EncodeToString(sum[:6]))
+		if pend[i].rf.Reach != "" {
+			name = "reach-" + name
+		}
+		pend[i].path = filepath.Join(replayDir, name)
+		os.WriteFile(pend[i].path, data, 0o644)
+		byPkg[pend[i].rf.Pkg] = append(byPkg[pend[i].rf.Pkg], i)
+	}
+	probesByPkg := map[string][]*ProbeSpec{}
+	for i := range c.prop.Probes {
+		p := &c.prop.Probes[i]
+		probesByPkg[p.Pkg] = append(probesByPkg[p.Pkg], p)
+	}
+	pkgs := map[string]bool{}
+	for p := range byPkg {
+		pkgs[p] = true
+	}
+	for p := range probesByPkg {
+		pkgs[p] = true
+	}
+	nativeOut := map[string]map[string]interface{}{} // replay path -> native outcome
+	for pkg := range pkgs {
+		// stage replays for this package in a scratch dir
+		stage := filepath.Join(env.scratch, "replay-"+pkg)
+		os.MkdirAll(stage, 0o755)
+		for _, i := range byPkg[pkg] {
+			data, _ := os.ReadFile(pend[i].path)
+			os.WriteFile(filepath.Join(stage, filepath.Base(pend[i].path)), data, 0o644)
+		}
+		cases, probeIn := c.probeCorpus(probesByPkg[pkg])
+		probeInPath := filepath.Join(env.scratch, "probe-in-"+pkg+".json")
+		probeOutPath := filepath.Join(env.scratch, "probe-out-"+pkg+".json")
+		replayOutPath := filepath.Join(env.scratch, "replay-out-"+pkg+".json")
+		os.WriteFile(probeInPath, probeIn, 0o644)
+		envv := []string{"VERIF_REPLAY_DIR=" + stage, "VERIF_REPLAY_OUT=" + replayOutPath}
+		run := "TestVerifReplay"
+		if len(cases) > 0 {
+			envv = append(envv, "VERIF_PROBE_IN="+probeInPath, "VERIF_PROBE_OUT="+probeOutPath)
+			run = "(TestVerifReplay|TestVerifProbe)"
+		}
+		out, err := env.goTest(pkg, run, envv)
+		if err != nil {
+			c.inconclusive("native build/run of the harness for package %s failed: %s", pkg, lastLines(out, 6))
+			continue
+		}
+		// replays
+		if data, err := os.ReadFile(replayOutPath); err == nil {
+			var outs []map[string]interface{}
+			json.Unmarshal(data, &outs)
+			for _, o := range outs {
+				if f, ok := o["file"].(string); ok {
+					nativeOut[filepath.Base(f)] = o
+				}
+			}
+		}
+		// probes: compare with the engine in concrete mode
+		if len(cases) > 0 {
+			data, err := os.ReadFile(probeOutPath)
+			if err != nil {
+				c.inconclusive("translator validation: no native probe output for %s", pkg)
+				continue
+			}
+			var natives []string
+			json.Unmarshal(data, &natives)
+			if len(natives) != len(cases) {
+				c.inconclusive("translator validation: %d native results for %d cases", len(natives), len(cases))
+				continue
+			}
+			bad := 0
+			for i, cs := range cases {
+				got, err := w.RunProbe(pkgPath(pkg), cs.Probe, cs.args)
+				if err != nil {
+					c.inconclusive("translator validation: engine cannot run %s: %s", cs.Probe, firstLine(err.Error()))
+					bad++
+					break
+				}
+				want := natives[i]
+				if strings.HasPrefix(want, "OK:") {
+					b, _ := hex.DecodeString(want[3:])
+					want = "OK:" + string(b)
+				}
+				if got != want {
+					bad++
+					if bad <= 3 {
+						c.inconclusive("translator validation: %s(%q): engine %q, native %q", cs.Probe, cs.args, got, want)
+					}
+					continue
+				}
+				c.probePairs++
+			}
+		}
+	}
+
+	// ---- classify ----
+	knownOpen := map[string]KnownFinding{}
+	knownFixed := map[string]KnownFinding{}
+	for _, k := range known {
+		if k.Property != c.prop.ID {
+			continue
+		}
+		if k.Status == "fixed" {
+			knownFixed[k.ID] = k
+		} else {
+			knownOpen[k.ID] = k
+		}
+	}
+	c.knownHits = map[string]bool{}
+	for _, p := range pend {
+		o := nativeOut[filepath.Base(p.path)]
+		rel, _ := filepath.Rel(c.verif, p.path)
+		if p.rf.Reach != "" {
+			okNative := false
+			if o != nil {
+				if rs, ok := o["reached"].([]interface{}); ok {
+					for _, r := range rs {
+						if r == p.rf.Reach {
+							okNative = true
+						}
+					}
+				}
+			}
+			if !okNative {
+				c.inconclusive("vacuity witness for %s/%s does not reach the tag natively (%s)", p.rf.Harness, p.rf.Reach, rel)
+			} else {
+				c.replayed++
+				c.reachOK[p.rf.Harness+"/"+p.rf.Reach] = true
+				c.samples = append(c.samples, map[string]interface{}{"kind": "reach-witness", "harness": p.rf.Harness, "tag": p.rf.Reach, "params": p.rf.Params, "inputs": p.rf.Inputs})
+				os.Remove(p.path)
+			}
+			continue
+		}
+		reproduced, nativeKnown := false, ""
+		if o != nil {
+			if p.rf.Kind == "assert" {
+				if fsl, ok := o["failures"].([]interface{}); ok {
+					for _, f := range fsl {
+						fm := f.(map[string]interface{})
+						if fm["msg"] == p.rf.Msg {
+							reproduced = true
+							nativeKnown, _ = fm["known"].(string)
+						}
+					}
+				}
+			} else if _, ok := o["panic"]; ok {
+				reproduced = true
+			}
+		}
+		if !reproduced {
+			c.inconclusive("counterexample for %q in %s does not reproduce natively (encoding or stub imprecise): %s native=%s", p.rf.Msg, p.rf.Harness, rel, jsonStr(o))
+			continue
+		}
+		c.replayed++
+		id := p.rf.Known
+		if id != nativeKnown {
+			c.inconclusive("known-finding class of %s differs between engine (%q) and native run (%q)", rel, id, nativeKnown)
+			continue
+		}
+		if k, ok := knownOpen[id]; ok && id != "" {
+			if !c.knownHits[id] {
+				c.say("KNOWN-FINDING: property=%s %s [%s] witness=%s", c.prop.ID, k.What, id, rel)
+				c.samples = append(c.samples, map[string]interface{}{"kind": "known-finding", "id": id, "harness": p.rf.Harness, "params": p.rf.Params, "inputs": p.rf.Inputs, "msg": p.rf.Msg})
+			}
+			c.knownHits[id] = true
+			continue
+		}
+		c.violations++
+		c.say("VIOLATION property=%s replay=%s", c.prop.ID, rel)
+		c.say("  harness=%s params=%v failed=%q kind=%s at %s inputs=%s", p.rf.Harness, p.rf.Params, p.rf.Msg, p.rf.Kind, p.rf.Pos, jsonStr(decodeInputs(p.rf.Inputs)))
+		if _, ok := knownFixed[id]; ok && id != "" {
+			c.say("  (this is the previously fixed finding %s coming back)", id)
+		}
+	}
+	for id, k := range knownOpen {
+		if !c.knownHits[id] && c.only == "" {
+			c.say("STALE-FINDING: property=%s %s [%s] no longer reproduces within the bound", c.prop.ID, k.What, id)
+		}
+	}
+	if c.violations > 0 {
+		return 1
+	}
+	if len(c.reason) > 0 {
+		return 2
+	}
+	c.say("OK property=%s tier=%s jobs=%d obligations=%d", c.prop.ID, c.tier, c.jobsN, c.totalObl())
+	return 0
+}
+
+func decodeInputs(in map[string]string) map[string]string {
+	out := map[string]string{}
+	for k, v := range in {
+		b, _ := hex.DecodeString(v)
+		out[k] = strconv.Quote(string(b))
+	}
+	return out
+}
+
+func (c *checker) totalObl() int {
+	n := 0
+	for _, r := range c.results {
+		if r != nil {
+			n += r.Obligations
+		}
+	}
+	return n
+}
+
+func firstLine(s string) string {
+	if i := strings.IndexByte(s, '\n'); i >= 0 {
+		return s[:i]
+	}
+	return s
+}
+
+func lastLines(s string, n int) string {
+	ls := strings.Split(strings.TrimSpace(s), "\n")
+	if len(ls) > n {
+		ls = ls[len(ls)-n:]
+	}
+	return strings.Join(ls, " | ")
+}
+
+// ---------- probes ----------
+
+type probeCase struct {
+	Probe string   `json:"probe"`
+	Args  []string `json:"args"` // hex
+	args  []string
+}
+
+func (c *checker) testStrings(dir string) []string {
+	var out []string
+	files, _ := filepath.Glob(filepath.Join(c.repo, dir, "*_test.go"))
+	sort.Strings(files)
+	fset := token.NewFileSet()
+	seen := map[string]bool{}
+	for _, f := range files {
+		af, err := parser.ParseFile(fset, f, nil, 0)
+		if err != nil {
+			continue
+		}
+		ast.Inspect(af, func(n ast.Node) bool {
+			if bl, ok := n.(*ast.BasicLit); ok && bl.Kind == token.STRING {
+				if s, err := strconv.Unquote(bl.Value); err == nil && len(s) <= 40 && !seen[s] {
+					seen[s] = true
+					out = append(out, s)
+				}
+			}
+			return true
+		})
+	}
+	return out
+}
+
+func (c *checker) probeCorpus(ps []*ProbeSpec) ([]probeCase, []byte) {
+	var cases []probeCase
+	for _, p := range ps {
+		rng := rand.New(rand.NewSource(c.seed*7919 + int64(len(p.Name))))
+		pool := append([]string{}, p.Extra...)
+		if p.TestDir != "" {
+			ts := c.testStrings(p.TestDir)
+			if len(ts) > 400 {
+				rng.Shuffle(len(ts), func(i, j int) { ts[i], ts[j] = ts[j], ts[i] })
+				ts = ts[:400]
+			}
+			for _, s := range ts {
+				if len(s) <= p.MaxLen*3 {
+					pool = append(pool, s)
+				}
+			}
+		}
+		gen := func() string {
+			if len(pool) > 0 && rng.Intn(4) == 0 {
+				return pool[rng.Intn(len(pool))]
+			}
+			n := rng.Intn(p.MaxLen + 1)
+			b := make([]byte, n)
+			for i := range b {
+				if rng.Intn(12) == 0 {
+					b[i] = byte(rng.Intn(256))
+				} else {
+					b[i] = p.Alphabet[rng.Intn(len(p.Alphabet))]
+				}
+			}
+			return string(b)
+		}
+		add := func(args []string) {
+			hx := make([]string, len(args))
+			for i, a := range args {
+				hx[i] = hex.EncodeToString([]byte(a))
+			}
+			cases = append(cases, probeCase{Probe: p.Name, Args: hx, args: args})
+		}
+		if p.NArgs == 1 {
+			for _, s := range pool {
+				add([]string{s})
+			}
+		}
+		for i := 0; i < p.N; i++ {
+			args := make([]string, p.NArgs)
+			for j := range args {
+				args[j] = gen()
+			}
+			add(args)
+		}
+	}
+	data, _ := json.Marshal(cases)
+	return cases, data
+}
+
+// ---------- replay command ----------
+
+func cmdReplay(args []string) int {
+	fs := flag.NewFlagSet("replay", flag.ExitOnError)
+	repo := fs.String("repo", "/repo", "")
+	verif := fs.String("verif", "/verif", "")
+	fs.Parse(args)
+	if fs.NArg() != 1 {
+		usage()
+	}
+	path := fs.Arg(0)
+	if !filepath.IsAbs(path) {
+		path = filepath.Join(*verif, path)
+	}
+	data, err := os.ReadFile(path)
+	if err != nil {
+		fmt.Println("ERROR", err)
+		return 2
+	}
+	var rf replayFile
+	if err := json.Unmarshal(data, &rf); err != nil {
+		fmt.Println("ERROR", err)
+		return 2
+	}
+	env, err := newEnv(*repo, *verif)
+	if err != nil {
+		fmt.Println("ERROR", err)
+		return 2
+	}
+	defer env.cleanup()
+	outPath := filepath.Join(env.scratch, "out.json")
+	out, err := env.goTest(rf.Pkg, "TestVerifReplay", []string{"VERIF_REPLAY=" + path, "VERIF_REPLAY_OUT=" + outPath})
+	if err != nil {
+		fmt.Println("native run failed:", lastLines(out, 10))
+		return 2
+	}
+	res, _ := os.ReadFile(outPath)
+	fmt.Printf("replay of %s (harness %s, params %v, inputs %s)\n%s\n", path, rf.Harness, rf.Params, jsonStr(decodeInputs(rf.Inputs)), res)
+	var outs []map[string]interface{}
+	json.Unmarshal(res, &outs)
+	if len(outs) == 1 {
+		if fsl, ok := outs[0]["failures"].([]interface{}); ok && len(fsl) > 0 {
+			fmt.Printf("VIOLATION property=%s replay=%s\n", rf.Property, path)
+			return 1
+		}
+		if _, ok := outs[0]["panic"]; ok {
+			fmt.Printf("VIOLATION property=%s replay=%s\n", rf.Property, path)
+			return 1
+		}
+	}
+	fmt.Println("replay passes on this tree")
+	return 0
+}
